@@ -4,6 +4,7 @@ import Moclo.Tables.Enzymes
 import Moclo.Proofs.Flank
 import Moclo.Proofs.RevComp
 import Moclo.Props.C02
+import Moclo.Proofs.Complete
 /-!
 # C01 — assembly yields exactly the Golden Gate ligation product
 
@@ -48,6 +49,24 @@ theorem product_is_concatenation {v : Ent} {mods : List Ent} {pid pname : Nat} {
     exact hsrc g (hmapsrc g (hperm.mem_iff.mpr (by simp [hg])))
   · rw [h7, List.length_append, List.length_flatten, List.map_map]
     rfl
+
+/-- **the converse — a well-formed assembly does yield the product**: distinct module objects accepted by
+their classes, whose overhang keys contain a chain from the vector's downstream to its upstream overhang (no
+two modules starting alike, no reverse-complementary starts), well-formed citations: `assemble` returns a
+product, its sequence is the concatenation of the chain's fragments followed by the vector's, and the unused
+modules are exactly those outside the chain.  With `module_canonical` / `vector_canonical` for the fragments
+this is the documented formula `o5₁·t₁ ⋯ o5ₖ·tₖ · o3ᵥ·backbone` -/
+theorem wellformed_assembly_succeeds {v : Ent} {mods : List Ent} (pid pname : Nat) {gv : GMod Word}
+    {gs chain : List (GMod Word)}
+    (h1 : v.gmod = .ok gv) (hF : List.Forall₂ (fun e g => e.gmod = .ok g) mods gs)
+    (hoid : (mods.map (·.oid)).Nodup) (hne : gv.start ≠ gv.stop)
+    (hsf : StartFree gs) (hrc : C03.NoRc rc gs) (hc : C03.Chain gs gv.stop chain gv.start)
+    (hd : ∀ e ∈ mods, (derefRec e.rcd).isSome) (hdv : (derefRec v.rcd).isSome)
+    (hf : ∀ e ∈ mods, e.faulty = false) (hvf : v.faulty = false) :
+    ∃ p, (assemble v mods pid pname).1 = .ok p ∧
+      p.rcd.seq = (chain.map (fun g => fragOfOid mods g.oid)).flatten ++ v.fragment ∧
+      (∀ o, o ∈ p.unused ↔ ∃ g ∈ gs, g ∉ chain ∧ g.oid = o) :=
+  assemble_complete pid pname h1 hF hoid hne hsf hrc hc hd hdv hf hvf
 
 /-- for every supported enzyme the structures the classes are matched with are the documented closed
 forms (generic module / vector, and signature-typed parts for two signatures each) -/
